@@ -1,5 +1,6 @@
 """C12 — completion contract: exact prefix, clean sorted proposals, transparent cursor"""
 import contracts.assistant  # noqa
 import contracts.util_strings  # noqa
+import contracts.marks  # noqa
 
 INFO = {'not_decided': [], 'stated_lemmas': [], 'trusted': []}
